@@ -407,6 +407,12 @@ func (w *Writer) appendEntry(e types.LogEntry) error {
 			w.info.BaseIndex, e.Index, w.info.BaseIndex+uint64(len(offsets)))
 	}
 
+	// The reader refuses frames larger than MaxEntrySize (to bound allocations
+	// on corrupt lengths) so we must not write one we could never read back.
+	if len(e.Data) > MaxEntrySize {
+		return ErrTooBig
+	}
+
 	fh := frameHeader{
 		typ: FrameEntry,
 		len: uint32(len(e.Data)),
